@@ -275,10 +275,20 @@ Definition cleanup_impl (c : config) (w : world) (k : cleanup) (flt : infix_filt
     end
   end.
 
-(* remove_or_compress_too_old_logfiles: with a background thread only a request is queued *)
+(* remove_or_compress_too_old_logfiles: with a background thread a request is sent to it.  The correspondence
+   check lets the thread finish each request before the next operation (schedule points), so the request is
+   worked off here; its result is ignored by the code, and a panic kills the thread for good (wacts = 1) *)
 Definition cleanup_or_queue (c : config) (w : world) (bg : bool) (k : cleanup) (flt : infix_filter) (direct : bool)
   : res unit * world :=
-  if bg then (Ok tt, match k with KNever => w | _ => set_acts w (S (wacts w)) end)
+  if bg then
+    match k with
+    | KNever => (Ok tt, w)
+    | _ => if Nat.eqb (wacts w) 1 then (Ok tt, w) else
+           match cleanup_impl c w k flt direct with
+           | (Panic, w1) => (Ok tt, set_acts w1 1)
+           | (_, w1) => (Ok tt, w1)
+           end
+    end
   else cleanup_impl c w k flt direct.
 
 (* ------------------------------------------------------------------ naming helpers *)
@@ -402,7 +412,12 @@ Definition roll_new (w : world) (crit : criterion) (append : bool) (path : bytes
 Definition init_naming (c : config) (w : world) (n : naming) : res (naming_state * bytes) * world :=
   let direct_ts fmt :=
     bind (latest_timestamp_file c w (negb (c_append c)) fmt)
-         (fun ts w1 => (Ok (NSTs ts None fmt, infix_from_ts c w1 fmt ts), w1)) in
+         (fun ts w1 =>
+            (* with append the file with the latest time stamp is continued; without, a new file is started
+               under a name that does not exist yet (infix_for_new_direct_file) *)
+            if c_append c then (Ok (NSTs ts None fmt, infix_from_ts c w1 fmt ts), w1)
+            else bind (collision_free c w1 (infix_from_ts c w1 fmt ts))
+                      (fun i w2 => (Ok (NSTs ts None fmt, i), w2))) in
   let current_ts cur fmt :=
     bind (creation_ts_of_current c w cur (negb (c_append c)) None fmt)
          (fun ts w1 => (Ok (NSTs ts (Some cur) fmt, cur), w1)) in
@@ -437,7 +452,8 @@ Definition initialize (c : config) (w : world) : res inner * world :=
           | _ => cleanup_impl c w3 k (ns_filter ns) (naming_writes_direct nam)
           end) (fun _ w4 =>
     let bg := match k with KNever => false | _ => c_bg c end in
-    (Ok (Active (Some {| rs_naming := ns; rs_roll := roll; rs_cleanup := k; rs_bg := bg |}) wr path), w4)))))
+    (Ok (Active (Some {| rs_naming := ns; rs_roll := roll; rs_cleanup := k; rs_bg := bg |}) wr path),
+     if bg then set_acts w4 0 else w4)))))
   end.
 
 (* ------------------------------------------------------------------ rotation *)
@@ -540,19 +556,8 @@ Definition flush_state (s : flw) (w : world) : bool * world * flw :=
   | Initial => (true, w, s)
   end.
 
-(* the background cleanup thread works off its queue: shutdown joins it *)
-Fixpoint run_acts (c : config) (w : world) (k : cleanup) (flt : infix_filter) (direct : bool) (n : nat) : world :=
-  match n with
-  | O => w
-  | S n' => run_acts c (snd (cleanup_impl c w k flt direct)) k flt direct n'
-  end.
-
-Definition drain_acts (s : flw) (w : world) : world :=
-  match f_inner s with
-  | Active (Some rs) _ _ =>
-    set_acts (run_acts (f_cfg s) w (rs_cleanup rs) (ns_filter (rs_naming rs)) (ns_writes_direct (rs_naming rs)) (wacts w)) O
-  | _ => w
-  end.
+(* shutdown joins the cleanup thread; every request has been worked off by then *)
+Definition drain_acts (s : flw) (w : world) : world := w.
 
 (* State::shutdown: join the cleanup thread, flush (error ignored) *)
 Definition shutdown_state (s : flw) (w : world) : world * flw :=
